@@ -25,6 +25,7 @@ func propC20() *Property {
 			{ID: "R20.3", Floor: 3, Text: "server config writes hash and clear passwords", Run: r20_3},
 			{ID: "R20.4", Floor: 4, Text: "patch -> load/fetch -> merge -> validate full -> store", Run: r20_4},
 			{ID: "R20.5", Floor: 1, Text: "constant-bound string slices in pkg/appctl are dominated by a length or prefix test covering the bound", Run: r20_5},
+			{ID: "R20.8", Floor: 2, Text: "the configuration file's format is decided the same way on every call: a format taken from the file name suffix is returned only after the environment variables that force a format were looked up and not found (load and store of one run agree on the format)", Run: r20_8},
 			{ID: "R20.7", Floor: 2, Text: "validator and consumer of the custom nonce prefixes decode the same string", Run: r20_7},
 			{ID: "R20.6", Floor: 2, Text: "exactly one os.WriteFile of the marshalled message per store function", Run: r20_6},
 		},
@@ -930,4 +931,63 @@ func hpReferrers(hp *ssa.Call) []ssa.Instruction {
 		return nil
 	}
 	return *hp.Referrers()
+}
+
+
+// r20_8: MIERU_CONFIG_FILE / MIERU_CONFIG_JSON_FILE (and the server's
+// counterparts) name a file *and* its format. If a later call in the same
+// process answers from the cached path and derives the format from the file
+// name instead, a store writes the other format than the load read, and the
+// next load fails. Decided: in the two path functions every return whose
+// format comes from FindConfigFileType is dominated by every environment
+// lookup of that function.
+func r20_8(c *RC) {
+	p := c.P
+	for _, name := range []string{"clientConfigFilePath", "serverConfigFilePath"} {
+		fn := p.Fn(appctlPkg, name)
+		if fn == nil {
+			c.Anchor("appctl." + name)
+			continue
+		}
+		var lookups []ssa.Instruction
+		instrs(fn, func(_ *ssa.BasicBlock, _ int, in ssa.Instruction) {
+			if cl, ok := in.(*ssa.Call); ok && (calleeID(cl) == "os.LookupEnv" || calleeID(cl) == "os.Getenv") {
+				lookups = append(lookups, in)
+			}
+		})
+		key := "format-by-suffix-only-without-env@" + name
+		if len(lookups) == 0 {
+			c.OK(key, fn.Pos(), "%s consults no environment variable", name)
+			continue
+		}
+		bad := ""
+		n := 0
+		instrs(fn, func(_ *ssa.BasicBlock, _ int, in ssa.Instruction) {
+			r, ok := in.(*ssa.Return)
+			if !ok || len(r.Results) < 2 {
+				return
+			}
+			bySuffix := false
+			for _, l := range Leaves(retVal(r, 1), nil) {
+				if cl, ok := l.(*ssa.Call); ok && calleeName(cl) == "FindConfigFileType" {
+					bySuffix = true
+				}
+			}
+			if !bySuffix {
+				return
+			}
+			n++
+			for _, lk := range lookups {
+				if !instrDominates(lk, in) {
+					bad = p.Pos(r.Pos())
+				}
+			}
+		})
+		switch {
+		case bad != "":
+			c.Bad(key, fn.Pos(), "%s can answer with a format derived from the file name (return at %s) before it has looked at the environment variables that force a format: with MIERU_CONFIG_JSON_FILE pointing at a name without the .json suffix the first call says JSON, later calls say protobuf, and the file written by apply/import cannot be read back", name, bad)
+		default:
+			c.OKH(key, fn.Pos(), "%d suffix-based return(s), each after all %d environment lookups", n, len(lookups))
+		}
+	}
 }
